@@ -45,6 +45,7 @@ def model_constants(inst):
         "removable": {t for t in comp if c["tests"][t]["removable"]},
         "closure": {f: set(c["flat"][f]["closure"]) for f in flats},
         "incompatible": list(getattr(inst, "incompatible", [])),
+        "swarm": dict(c["swarm"]), "spawner": dict(c["spawner"]),
         "workers": list(c["workers"]), "unrestricted": [w for w in c["workers"] if w not in c["restricted"]],
         "states": sorted(produced),
     }
@@ -58,7 +59,7 @@ OWN_UNEXPLORED = True     # what the code under check does (see Traversal.tla Ow
 
 
 def write_mc(work, name, mc, pools, spec, statuses, maxtries=1, maxconc=1, rerun=None, stop=(), maxbounce=1, lazy=True, invariants=(),
-             constraint=None, postcondition=None, extra_cfg="", dry=False, useprio=False, ownunexplored=None):
+             constraint=None, postcondition=None, extra_cfg="", dry=False, useprio=False, ownunexplored=None, poolscope=("own", "swarm", "cluster", "shared")):
     """pools: list of dict loc -> set(states)"""
     ws = mc["workers"]
     with open(os.path.join(work, name + ".tla"), "w") as f:
@@ -71,6 +72,8 @@ def write_mc(work, name, mc, pools, spec, statuses, maxtries=1, maxconc=1, rerun
         f.write("MCUnrestricted == %s\n" % tla(set(mc["unrestricted"])))
         f.write("MCPrio == %s\n" % fun(mc["tests"], lambda t: str(mc["prio"].get(t, 0))))
         f.write("MCIncompatible == %s\n" % tla(set(mc.get("incompatible", []))))
+        f.write("MCSpawner == %s\nMCSwarm == %s\nMCPoolScope == %s\n" % (fun(ws, lambda w: tla(mc["spawner"].get(w, "")), "w", "MCW"),
+                                                                        fun(ws, lambda w: tla(mc["swarm"].get(w, "")), "w", "MCW"), tla(set(poolscope))))
         locs = ["shared"] + ws
         f.write("MCInitPools == {%s}\n" % ",\n  ".join(
             "[x \\in MCW \\cup {\"shared\"} |-> " + " ".join(("CASE" if i == 0 else "[]") + " x = %s -> %s" % (tla(x), tla(set(p.get(x, ()))))
@@ -80,7 +83,7 @@ def write_mc(work, name, mc, pools, spec, statuses, maxtries=1, maxconc=1, rerun
         f.write("SPECIFICATION %s\nCONSTANTS\n W <- MCW\n WOrder <- MCWOrder\n Tests <- MCTests\n Root = \"t0\"\n FlatLeaves <- MCFlat\n ObjRoots <- MCObjRoots\n"
                 " Stateful <- MCStateful\n Setup <- MCSetup\n Gets <- MCGets\n Sets <- MCSets\n UnsetSets <- MCUnsetSets\n Removable <- MCRemovable\n"
                 " Closure <- MCClosure\n Unrestricted <- MCUnrestricted\n Incompatible <- MCIncompatible\n InitPools <- MCInitPools\n Statuses <- MCStatuses\n MaxTries = %d\n MaxConc = %d\n"
-                " RerunSet <- MCRerun\n StopSet <- MCStop\n MaxBounce = %d\n Lazy = %s\n DryRun = %s\n Prio <- MCPrio\n UsePrio = %s\n OwnUnexplored = %s\n"
+                " RerunSet <- MCRerun\n StopSet <- MCStop\n MaxBounce = %d\n Lazy = %s\n DryRun = %s\n Prio <- MCPrio\n UsePrio = %s\n OwnUnexplored = %s\n Spawner <- MCSpawner\n Swarm <- MCSwarm\n PoolScope <- MCPoolScope\n"
                 % (spec, maxtries, maxconc, maxbounce, "TRUE" if lazy else "FALSE", "TRUE" if dry else "FALSE", "TRUE" if useprio else "FALSE",
                    "TRUE" if (OWN_UNEXPLORED if ownunexplored is None else ownunexplored) else "FALSE"))
         for inv in invariants:
@@ -121,12 +124,12 @@ def residue_pools(mc, max_present=2):
 SAFETY = ["TypeOK", "PathContinuous", "NoC01", "NoC03", "NoC04", "NoC05", "NoC10", "Completed"]
 
 
-def explore(work, inst, name, pools, statuses=("PASS", "FAIL"), maxbounce=1, lazy=None, maxtries=1, invariants=SAFETY, timeout=3000, ownunexplored=None, live=False):
+def explore(work, inst, name, pools, statuses=("PASS", "FAIL"), maxbounce=1, lazy=None, maxtries=1, invariants=SAFETY, timeout=3000, ownunexplored=None, live=False, poolscope=("own", "swarm", "cluster", "shared")):
     C.stage_specs(work, os.path.join(C.SPECS, "traversal"))
     mc = model_constants(inst)
     write_mc(work, name, mc, pools, "LiveSpec" if live else "Spec", statuses, extra_cfg="PROPERTY NoSpin\n" if live else "", maxtries=maxtries, maxconc=max(maxtries, 1), maxbounce=maxbounce,
              lazy=inst.lazy if lazy is None else lazy,
-             invariants=invariants, constraint="BounceBound", ownunexplored=ownunexplored)
+             invariants=invariants, constraint="BounceBound", ownunexplored=ownunexplored, poolscope=poolscope)
     return C.run_tlc(work, name, name + ".cfg", timeout=timeout, heap="24g"), mc
 
 
@@ -192,7 +195,7 @@ def validate_traces(work, inst, results, par=8, timeout=600):
                  rerun=[s.upper() for s in str(rp.get("rerun_status", "")).replace(",", " ").split()] or None,
                  stop=[s.upper() for s in str(rp.get("stop_status", "")).replace(",", " ").split()],
                  maxbounce=10 ** 6, lazy=inst.lazy, constraint="TrackProgress", postcondition="TraceAccepted",
-                 dry=str(rp.get("dry_run", "no")) == "yes")
+                 dry=str(rp.get("dry_run", "no")) == "yes", poolscope=str(rp.get("pool_scope", "own swarm cluster shared")).split())
         evs = algo_events(res)
         path = os.path.join(work, name + ".ndjson")
         with open(path, "w") as f:
